@@ -660,8 +660,88 @@ fn emit_uni(ctx: &mut Ctx, conns: &[Conn], order: &[(usize, usize)], cap: usize)
     ctx.emit(l.finish(&out));
 }
 
+// ------------------------------------------------------------------------------------- the TtlCache model itself
+
+/// `C07.ttl`: a random operation sequence on a real `ttl_cache::TtlCache<u8, u32>` on its own clock
+/// (`Instant::now()`, not injectable): the harness sleeps to a 40 ms grid, entries live k*40+20 ms, and
+/// every operation is reported with the time at which it actually ran, so the model (Model/Flow.lean
+/// `TtlMap`: insertion order, capacity counted over expired entries too, lazy expiry, `get_mut` does not
+/// refresh) is driven with the same instants. Validates the third-party interface model every
+/// flow theorem stands on, expiry included.
+fn emit_ttlcache(ctx: &mut Ctx, r: &mut Rng, script: Option<(usize, Vec<(u64, u8, u8, u32, u64)>)>) {
+    let cap = match &script { Some(s) => s.0, None => r.range(1, 4) as usize };
+    let nops = match &script { Some(s) => s.1.len(), None => r.range(6, 14) as usize };
+    let mut cache: TtlCache<u8, u32> = TtlCache::new(cap);
+    let start = std::time::Instant::now();
+    let mut l = Line::op("C07.ttl");
+    l.usize(cap);
+    let mut ops: Vec<(u64, u8, u8, u32, u64)> = vec![]; // (time ms, op, key, value, ttl ms)
+    let mut outs: Vec<String> = vec![];
+    let mut slot = 0u64;
+    for i in 0..nops {
+        let scripted = script.as_ref().map(|s| s.1[i]);
+        if let Some(sc) = scripted {
+            slot = sc.0;
+        } else if r.chance(1, 2) {
+            slot += r.range(1, 3);
+        }
+        let target = std::time::Duration::from_millis(slot * 40);
+        let el = start.elapsed();
+        if el < target {
+            std::thread::sleep(target - el);
+        }
+        let (key, val, ttl, op) = match scripted {
+            Some(sc) => (sc.2, sc.3, sc.4, sc.1),
+            None => (r.below(4) as u8, r.below(1000) as u32, r.range(0, 3) * 40 + 20, *r.pick(&[0u8, 0, 0, 0, 1, 1, 1, 2, 3, 4])),
+        };
+        let before = start.elapsed().as_micros() as u64;
+        let out = match op {
+            0 => {
+                cache.insert(key, val, std::time::Duration::from_millis(ttl));
+                "i".to_string()
+            }
+            1 => match cache.get(&key) {
+                Some(v) => format!("{v}"),
+                None => "-".into(),
+            },
+            2 => match cache.get_mut(&key) {
+                Some(v) => {
+                    *v = val;
+                    "1".into()
+                }
+                None => "0".into(),
+            },
+            3 => {
+                cache.remove(&key);
+                "r".into()
+            }
+            _ => if cache.contains_key(&key) { "1".into() } else { "0".into() },
+        };
+        let after = start.elapsed().as_micros() as u64;
+        // the operation ran somewhere in [before, after]; report the midpoint in ms (the driver treats an
+        // operation closer than 3 ms to an expiry instant as unspecified)
+        let t = (before + after) / 2000;
+        ops.push((t, op, key, val, ttl));
+        outs.push(out);
+        let _ = after;
+    }
+    l.list(&ops, |l, o| {
+        l.nat(o.0).nat(o.1).nat(o.2).nat(o.3).nat(o.4);
+    });
+    ctx.emit(l.finish(&outs.join(",")));
+}
+
 pub fn run(ctx: &mut Ctx) {
     let mut r = ctx.rng.fork();
+    // scripted: an expired read, an expired entry still holding its slot, eviction of the oldest, re-insertion
+    // moving to the back, get_mut not refreshing the lifetime
+    emit_ttlcache(ctx, &mut r, Some((2, vec![
+        (0, 0, 0, 10, 20), (0, 0, 1, 11, 100), (1, 1, 0, 0, 0), (1, 4, 1, 0, 0), (1, 0, 2, 12, 60), (1, 1, 1, 0, 0),
+        (1, 0, 1, 13, 60), (1, 0, 3, 14, 60), (1, 1, 2, 0, 0), (1, 2, 1, 99, 0), (3, 1, 1, 0, 0), (3, 1, 3, 0, 0),
+    ])));
+    for _ in 0..ctx.n(12, 120) {
+        emit_ttlcache(ctx, &mut r, None);
+    }
     let n = ctx.n(400, 40000);
     for k in 0..n {
         let v6 = r.chance(1, 4);
